@@ -560,12 +560,57 @@ theorem C20_split_complete (p : Str) (h : splitPath p = none) :
   unfold splitPath at h
   rw [h] at hs; simp at hs
 
+/-! ## Histories: the gateway is stateless, and every call travels as JSON -/
+
+/-- the requests of a history, in order, each with the gateway settings of its moment -/
+def requestsOf : List HEv → List (Cfg × Nat × Backend × Req)
+  | [] => []
+  | .perturb _ :: rest => requestsOf rest
+  | .request cfg tmo be req :: rest => (cfg, tmo, be, req) :: requestsOf rest
+
+/-- **C20_history.**  For every history — any number of requests, with arbitrary writes to the
+    process-global Pyro configuration (serializer, timeout) by other code before, between and after
+    them, from any starting configuration — each request is answered exactly as if it were the only
+    one (`app` of its own settings, backend and request: no state is carried from request to
+    request), and while it is handled the configuration is `SERIALIZER = json`,
+    `COMMTIMEOUT = pyro_app.comm_timeout`: the forwarded call is sent, and its answer comes back,
+    as JSON whatever happened in the process before. -/
+theorem C20_history (c0 : PyroConfig) (evs : List HEv) :
+    (runHistory c0 evs).map (fun o => (o.reply, o.actions, o.config)) =
+    (requestsOf evs).map (fun r =>
+      ((app r.1 r.2.2.1 r.2.2.2).1, (app r.1 r.2.2.1 r.2.2.2).2, (⟨.json, r.2.1⟩ : PyroConfig))) := by
+  induction evs generalizing c0 with
+  | nil => rfl
+  | cons ev rest ih =>
+    cases ev with
+    | perturb c' => simpa [runHistory, requestsOf] using ih c'
+    | request cfg tmo be req =>
+      simp only [runHistory, requestsOf, List.map_cons, appC, writeConfig]
+      rw [ih]
+
+/-- **C20_history_json.**  In every history every request is handled under the JSON serializer. -/
+theorem C20_history_json (c0 : PyroConfig) (evs : List HEv) :
+    ∀ o ∈ runHistory c0 evs, o.config.serializer = .json := by
+  induction evs generalizing c0 with
+  | nil => intro o ho; simp [runHistory] at ho
+  | cons ev rest ih =>
+    cases ev with
+    | perturb c' => intro o ho; exact ih c' o (by simpa [runHistory] using ho)
+    | request cfg tmo be req =>
+      intro o ho
+      simp only [runHistory, List.mem_cons] at ho
+      rcases ho with h | h
+      · subst h; rfl
+      · exact ih _ o h
+
 /-! ## obligations about facts extracted from the current source (PyroModel/Gen/C20.lean) -/
 
 /-- The routing constants, the split regex, the parameter / member / option names and the status
     codes of the fixed replies in the source are the ones the model is written against; both 403
     refusals precede (lexically) every call that touches the name server or a proxy; by default no
-    key is configured and the expose pattern is `http\.`. -/
+    key is configured and the expose pattern is `http\.`; `pyro_app` assigns `config.SERIALIZER`
+    (the literal "json") and `config.COMMTIMEOUT` as plain statements of its body (nesting depth 0:
+    under no `if`, loop or `try`) before it reads anything from `environ` (`writeConfig`). -/
 theorem C20_gen_facts :
     Pyro.Gen.C20.routePrefix = sPyro ∧ Pyro.Gen.C20.routeSlice = sPyro.length ∧
     Pyro.Gen.C20.allowedMethods = [sGET, sPOST, sOPTIONS] ∧ Pyro.Gen.C20.optionsLiteral = sOPTIONS ∧
@@ -580,7 +625,10 @@ theorem C20_gen_facts :
     Pyro.Gen.C20.otherStatuses = [200, 500] ∧
     (∀ r ∈ Pyro.Gen.C20.refusalLines, ∀ t ∈ Pyro.Gen.C20.trafficLines, r < t) ∧
     Pyro.Gen.C20.refusalLines.length = 2 ∧
-    Pyro.Gen.C20.defaultPattern = "http\\." ∧ Pyro.Gen.C20.defaultKeyIsNone = true := by decide
+    Pyro.Gen.C20.defaultPattern = "http\\." ∧ Pyro.Gen.C20.defaultKeyIsNone = true ∧
+    Pyro.Gen.C20.configWrites = [("SERIALIZER", 0), ("COMMTIMEOUT", 0)] ∧
+    Pyro.Gen.C20.configSerializer = "json" ∧
+    (∀ w ∈ Pyro.Gen.C20.configWriteLines, w < Pyro.Gen.C20.firstEnvironReadLine) := by decide
 
 /-! ## non-vacuity: concrete requests meeting the hypotheses -/
 
@@ -649,6 +697,12 @@ example : IsHomepage { exReq with path := [47] ++ sPyro, query := [] } := by
 example : splitPath [97, 47, 98, 47, 99] = some ([97, 47, 98], [99]) := by decide
 example : splitPath [97, 47, 98, 10, 99, 47, 100] = some ([97], [98]) := by decide
 example : splitPath [47, 98] = none := by decide
+
+-- a history: request, other code switches the process to serpent, request again: same answer, JSON both times
+example : (runHistory ⟨.serpent, 0⟩ [.request exCfg 5000 exBe exReq, .perturb ⟨.serpent, 0⟩, .request exCfg 5000 exBe exReq]).map
+      (fun o => (o.reply, o.config))
+    = [(.http ⟨200, .json, true, .raw [1, 2, 3]⟩, ⟨.json, 5000⟩), (.http ⟨200, .json, true, .raw [1, 2, 3]⟩, ⟨.json, 5000⟩)] := by
+  decide
 
 end Examples
 
